@@ -80,4 +80,57 @@ PROPS = {
         "C20_models_queries_sound: every quantile < 2^P of an accepted lookup or searched model is answered from "
         "inside the table (the checked get_unchecked / unreachable sites never fire).",
         "No axioms.", "Coq proof + correspondence"),
+    "C06_range": _part(
+        ["Props.RangeExtra:C06_range", "Props.C02:C02_encoder_refines,C02_seal_refines", "Props.C06_range_doc"],
+        [("fam_range", "gen_roundtrip", 152, 6000), ("fam_range", "gen_carry", 152, 6000)],
+        "range-coded message whose encoder held back >= 1 word (carry bookkeeping visible in the words)",
+        "C06_range_words: for every message the sealed words of the machine-level range encoder are exactly the "
+        "base-2^WB digits of the seal point of the exact interval [L, L+R) (carry-propagating range coding written "
+        "without the implementation's bookkeeping); README vector [0x1C31EFEB, 0x87B430DA] recomputed by vm_compute.",
+        'Range coder part: theorems about Model/Range.v (machine level, wrapping SB-bit arithmetic, six modelled panic sites proved unreachable) refined to the exact big-number spec Model/RangeSpec.v; messages shorter than 2^64 symbols (usize counter of held-back words). No axioms.', "Coq proof (refinement to a big-number spec) + exact word-for-word correspondence"),
+    "C07_range": _part(
+        ["Props.RangeExtra:C07_range"],
+        [("fam_range", "gen_roundtrip", 152, 6000), ("fam_range", "gen_carry", 152, 6000)],
+        "range decoder seeked to >= 1 snapshot (also snapshots taken while words were held back)",
+        "C07_range_seek / _seek_end / _seek_refused / _pos: a snapshot (pos, state) taken at any symbol boundary, "
+        "also while Inverted, handed to a decoder in ANY prior state yields the remaining symbols; seeking to the "
+        "final position leaves the decoder possibly exhausted; positions beyond the data are refused.",
+        'Range coder part: theorems about Model/Range.v (machine level, wrapping SB-bit arithmetic, six modelled panic sites proved unreachable) refined to the exact big-number spec Model/RangeSpec.v; messages shorter than 2^64 symbols (usize counter of held-back words). No axioms.', "Coq proof (modular decoder invariant) + correspondence"),
+    "C08_range": _part(
+        ["Props.RangeExtra:C08_range"],
+        [("fam_range", "gen_roundtrip", 152, 6000), ("fam_range", "gen_carry", 100, 4000)],
+        "range encoder inspected (get_compressed / decoder()) and then continued",
+        "C08_range_guard_pure / _total: seal-view-unseal returns the encoder unchanged in both situations and the "
+        "view is what into_compressed would return.", 'Range coder part: theorems about Model/Range.v (machine level, wrapping SB-bit arithmetic, six modelled panic sites proved unreachable) refined to the exact big-number spec Model/RangeSpec.v; messages shorter than 2^64 symbols (usize counter of held-back words). No axioms.', "Coq proof + correspondence"),
+    "C09_range": _part(
+        ["Props.RangeExtra:C09_range"], [("fam_range", "gen_roundtrip", 152, 6000)],
+        "range encoder asked to encode an out-of-support symbol",
+        "C09_range_impossible_rejected / _iff: ImpossibleSymbol exactly for symbols outside the support, with no new "
+        "encoder state.", 'Range coder part: theorems about Model/Range.v (machine level, wrapping SB-bit arithmetic, six modelled panic sites proved unreachable) refined to the exact big-number spec Model/RangeSpec.v; messages shorter than 2^64 symbols (usize counter of held-back words). No axioms.', "Coq proof + correspondence"),
+    "C10_range": _part(
+        ["Props.RangeExtra:C10_range", "Props.C02:C02_decoder_refines"],
+        [("fam_range", "gen_garbage", 300, 10000)],
+        "range decoder over arbitrary words",
+        "C10_range_decode_total / _all_total: on every word sequence the range decoder returns an in-support symbol "
+        "or InvalidData, never a panic (expect(\"TODO\") and the division by scale are unreachable).",
+        'Range coder part: theorems about Model/Range.v (machine level, wrapping SB-bit arithmetic, six modelled panic sites proved unreachable) refined to the exact big-number spec Model/RangeSpec.v; messages shorter than 2^64 symbols (usize counter of held-back words). No axioms.', "Coq proof + debug-build correspondence on garbage"),
+    "C12_range": _part(
+        ["Props.RangeExtra:C12_range"], [("fam_range", "gen_roundtrip", 152, 6000)],
+        "range-coded message with the size bound evaluated",
+        "C12_range_shrink / _size / _one_word_per_symbol: words <= n + 2 and B^words (M-1) prod(p_i K_i) <= "
+        "B^2 M prod(2^P_i (K_i+1)) in exact integers.",
+        'Range coder part: theorems about Model/Range.v (machine level, wrapping SB-bit arithmetic, six modelled panic sites proved unreachable) refined to the exact big-number spec Model/RangeSpec.v; messages shorter than 2^64 symbols (usize counter of held-back words). No axioms.' + " The logarithmic reading of the range-coder bound is not a separate theorem.",
+        "Coq proof + exact-integer oracle"),
+    "C18_range": _part(
+        ["Props.RangeExtra:C18_range", "Props.C02:C02_roundtrip,C02_empty,C02_exhausted_empty"],
+        [("fam_range", "gen_roundtrip", 152, 6000), ("fam_range", "gen_carry", 100, 4000)],
+        "range encoder size query followed by an export; decoder exhaustion queries",
+        "C18_range_num_words / _num_bits / _is_empty / _not_exhausted and C02_roundtrip (maybe_exhausted after the "
+        "last symbol).", 'Range coder part: theorems about Model/Range.v (machine level, wrapping SB-bit arithmetic, six modelled panic sites proved unreachable) refined to the exact big-number spec Model/RangeSpec.v; messages shorter than 2^64 symbols (usize counter of held-back words). No axioms.', "Coq proof + correspondence"),
+    "C20_range": _part(
+        ["Props.C02:C02_encoder_refines,C02_decoder_refines"], [("fam_range", "gen_garbage", 100, 4000),
+                                                                 ("fam_range", "gen_carry", 100, 4000)],
+        "range coder case reaching a modelled panic site's boundary",
+        "C02_encoder_refines / C02_decoder_refines: none of the six modelled panic / overflow sites of queue.rs is "
+        "reachable from new() / from_compressed().", 'Range coder part: theorems about Model/Range.v (machine level, wrapping SB-bit arithmetic, six modelled panic sites proved unreachable) refined to the exact big-number spec Model/RangeSpec.v; messages shorter than 2^64 symbols (usize counter of held-back words). No axioms.', "Coq proof + debug-build correspondence"),
 }
